@@ -94,7 +94,9 @@ def sensitivity(prop, tier, only=None):
             if r.returncode != 0:
                 res.append((name, p, "patch-does-not-apply", r.stderr[-300:]))
                 continue
-            env = dict(os.environ, VERIF_REPO=scratch)
+            # evidence of a run against a patched copy must never land in /verif/evidence
+            env = dict(os.environ, VERIF_REPO=scratch, VERIF_EVIDENCE_DIR=os.path.join(scratch, "evidence"),
+                       VERIF_REPLAY_DIR=os.path.join(runner.VERIF, "out", "replays-sensitivity"))
             t0 = time.time()
             r = subprocess.run([os.path.join(runner.VERIF, "check"), p, "--tier", tier], env=env, capture_output=True, text=True)
             lines = [l for l in r.stdout.splitlines() if l.startswith("VIOLATION")]
